@@ -264,6 +264,45 @@ def _gen(bin_path, mode, seed, count, steps, out):
         raise ToolError(f"mux_sim failed (mode {mode})")
 
 
+def flood_schedules(tier, prop):
+    """Deterministic high-volume schedules (see 2c' in mux_check)."""
+    out = []
+    small = dict(rwnd=2, thr=2, acceptCap=1, dgCap=1, bindCap=0, retries=1)
+    def burst(n):
+        cmds = [dict(op="dg_send", e="A", id=k % 3, host="h", port=k % 65536, data="d%d" % k) for k in range(n)]
+        for k in range(n + 4):
+            cmds += [dict(op="task", e="A", gr=1, gs=1), dict(op="task", e="B", gr=1, gs=1), dict(op="dg_get", e="B")]
+        cmds.append(dict(op="quiesce", lazy=False))
+        return dict(cfg=dict(A=small, B=dict(small, dgCap=n + 100)), real=2, cmds=cmds)
+    def mixed(nstreams, per, ndg):
+        big = dict(rwnd=512, thr=256, acceptCap=4, dgCap=64, bindCap=0, retries=1)
+        cmds = []
+        for c in range(1, nstreams + 1):
+            cmds.append(dict(op="open", e="A", c=c, host="h%d" % c, port=7, draws=[c]))
+        for _ in range(3 * nstreams):
+            cmds += [dict(op="task", e="A", gr=1, gs=1), dict(op="task", e="B", gr=1, gs=1)]
+        for c in range(1, nstreams + 1):
+            cmds += [dict(op="open_poll", e="A", c=c), dict(op="accept", e="B")]
+        for k in range(ndg):
+            cmds.append(dict(op="dg_send", e="A", id=9, host="g", port=k, data="m%d" % k))
+        for k in range(per):
+            for c in range(1, nstreams + 1):
+                cmds.append(dict(op="write", e="A", h=c, len=1))          # handles are named 1..n in the order they were obtained
+        for k in range(ndg + per * nstreams + 8):
+            cmds += [dict(op="task", e="A", gr=1, gs=1), dict(op="task", e="B", gr=1, gs=1)]
+            if k < ndg + 2:
+                cmds.append(dict(op="dg_get", e="B"))
+        cmds.append(dict(op="quiesce", lazy=False))
+        return dict(cfg=dict(A=big, B=big), real=2, cmds=cmds)
+    if prop == "C11":
+        out.append(burst(1050))
+        if tier == "thorough":
+            out += [burst(2100)]
+    # mixed(3, 400, 16) -- datagrams ahead of 1 200 queued Push frames with the default window -- executes in a second but its
+    # validation takes TLC more than 20 minutes (the state record carries four queues of several hundred frames): not wired
+    return out
+
+
 def known_for(prop):
     return [k for k in vlib.load_known() if k.get("property") == prop and k.get("status") == "open"]
 
@@ -408,6 +447,21 @@ def mux_check(prop, tier, seed, replay):
                     raise ToolError("mux_sim script failed on the fault enumeration: " + o[-400:])
                 mc_runs.append(dict(config="fault enumeration", base_schedules=len(bases), schedules=len(fe)))
                 batches.append(("fault-enum", out))
+            # 2c'. volume: queues far longer than any schedule above builds (a threshold on a queue length -- "drop datagrams
+            #     once more than 1024 messages wait", a counter that wraps -- is invisible to schedules of a few dozen steps).
+            #     Deterministic scripts: a burst of N datagrams before the task runs, then everything drained one message
+            #     per poll
+            if prop == "C11":
+                fl = flood_schedules(tier, prop)
+                sj = os.path.join(work, "flood.json")
+                json.dump(fl, open(sj, "w"))
+                out = os.path.join(work, "flood.ndjson")
+                rc, o = vlib.run([bin_path, "script", sj, out], timeout=3000)
+                if rc not in (0, 3):
+                    raise ToolError("mux_sim script failed on the volume schedules: " + o[-400:])
+                mc_runs.append(dict(config="volume schedules (bursts beyond 1024 queued messages)", schedules=len(fl),
+                                    commands=sum(len(x["cmds"]) for x in fl)))
+                batches.append(("volume", out))
             # 2d. the directed schedules of the open known findings of this property (so that each is met in every run)
             for k in known_for(prop):
                 if k.get("schedule"):
